@@ -403,9 +403,11 @@ async fn scenario(a: &ShardArgs, idx: u64) {
             MK::Read(s, nstat) => {
                 let out_i = outstanding_before(m.ord, m.t);
                 // superseded: another request or a reconnect before it could be served
-                let answers: Vec<(u64, u64)> = sol_log.iter().filter(|(o, ts, ss, _)| ss == s && *o > m.ord && *ts <= m.t + t_c).map(|x| (x.0, x.1)).collect();
+                // sequence numbers wrap after 16 requests: a response belongs to this READ only up to the next request that reuses its number
+                let reuse = marks.iter().filter(|k| k.ord > m.ord && matches!(&k.k, MK::Read(s2, _) | MK::OtherRequest(s2) if s2 == s)).map(|k| k.ord).min().unwrap_or(u64::MAX);
+                let answers: Vec<(u64, u64)> = sol_log.iter().filter(|(o, ts, ss, _)| ss == s && *o > m.ord && *o < reuse && *ts <= m.t + t_c).map(|x| (x.0, x.1)).collect();
                 // content: the (first fragment of the) answer carries what THIS request selects
-                if let Some(ans) = sol_log.iter().find(|(o, ts, ss, _)| ss == s && *o > m.ord && *ts <= m.t + t_c) {
+                if let Some(ans) = sol_log.iter().find(|(o, ts, ss, _)| ss == s && *o > m.ord && *o < reuse && *ts <= m.t + t_c) {
                     if ans.3 != *nstat {
                         viol("U7_read_content", if out_i_is_some(&txs, m.ord) { "deferred" } else { "idle" }, format!("READ seq={s} at t={} selects {nstat} static objects but its response carries {}", m.t, ans.3));
                     } else {
